@@ -903,6 +903,7 @@ def _async_worker(
     """
     env = env_fn()
     observation_space = {agent: env.observation_space(agent) for agent in agents}
+    action_shape = {agent: env.action_space(agent).shape for agent in agents}
     parent_pipe.close()
 
     try:
@@ -921,9 +922,14 @@ def _async_worker(
                 )
                 pipe.send(((info), True))
             elif command == "step":
+                # Hand every agent its action in the shape of its own action space
                 data = {
                     possible_agent: (
-                        np.array(data[idx]).squeeze()
+                        (
+                            np.array(data[idx]).reshape(action_shape[possible_agent])
+                            if action_shape[possible_agent] is not None
+                            else np.array(data[idx]).squeeze()
+                        )
                         if not isinstance(data[idx], int)
                         else data[idx]
                     )
